@@ -95,3 +95,56 @@ Definition poll_iteration (r : poll_res) : nat * bool :=
   | PReady n => (n, true)
   | PErr _ => (0%nat, true)     (* EINTR silent, others logged; the loop simply iterates again *)
   end.
+
+(* ---- one connect attempt: Connector::connect (Connector.cc:78-117), added 2026-10-02 ---------- *)
+(* what happens to the socket the attempt created, for the errno [e] that ::connect left (0 =
+   success): how often it is closed, and whether it ends in a Channel watching writability.
+   Everything is read off the generated facts: per switch group how often its body calls
+   connecting(sockfd) / retry(sockfd) / sockets::close(sockfd) ([connect_groups],
+   [connect_default_group]), how often retry() closes its argument unconditionally, whether
+   connecting() closes anything / creates the channel. *)
+Fixpoint connect_group_of (e : Z) (l : list (list Z * (nat * nat * nat))) : nat * nat * nat :=
+  match l with
+  | [] => connect_default_group
+  | (labels, t) :: r => if zmem e labels then t else connect_group_of e r
+  end.
+
+Record attempt := mkAttempt {
+  at_created : nat;      (* sockets created by the attempt *)
+  at_closes : nat;       (* close() calls on the created socket *)
+  at_watched : bool;     (* handed to a Channel with write interest (to be continued by handleWrite / handleError) *)
+  at_retries : nat       (* retry timers armed (if connect_ is still set) *)
+}.
+
+Definition connect_attempt (e : Z) : attempt :=
+  let '(cg, rt, cl) := connect_group_of e connect_groups in
+  mkAttempt connect_creates_sockets
+            (cl + rt * connector_retry_closes + cg * connector_connecting_closes)
+            ((0 <? cg)%nat && connector_connecting_watches)
+            rt.
+
+(* ---- the idleFd_ protocol of the EMFILE branch, statement by statement ------------------------- *)
+(* the spare descriptor: closed / refers to /dev/null / refers to a connection taken from the listen queue *)
+Inductive idle := IdleClosed | IdleNull | IdleConn.
+
+Record valve := mkValve {
+  v_idle : idle;
+  v_pend : nat;        (* listen queue *)
+  v_closed : nat;      (* pending connections accepted on the spare descriptor and closed *)
+  v_leaked : nat       (* open descriptors whose number was overwritten without a close *)
+}.
+
+(* 1 = ::close(idleFd_), 2 = idleFd_ = ::accept(listener), 3 = idleFd_ = ::open("/dev/null"), other = no effect on the protocol *)
+Definition valve_step (v : valve) (code : Z) : valve :=
+  let lost := match v_idle v with IdleClosed => 0%nat | _ => 1%nat end in
+  if code =? 1 then
+    mkValve IdleClosed (v_pend v) (match v_idle v with IdleConn => S (v_closed v) | _ => v_closed v end) (v_leaked v)
+  else if code =? 2 then
+    match v_pend v with
+    | O => mkValve IdleClosed O (v_closed v) (v_leaked v + lost)            (* accept fails: idleFd_ = -1 *)
+    | S n => mkValve IdleConn n (v_closed v) (v_leaked v + lost)
+    end
+  else if code =? 3 then mkValve IdleNull (v_pend v) (v_closed v) (v_leaked v + lost)
+  else v.
+
+Definition run_valve (v : valve) (codes : list Z) : valve := fold_left valve_step codes v.
